@@ -147,6 +147,30 @@ Theorem C04_history_position_fresh : forall inputs fuel rs c w lg,
     /\ pos_trace ([], 0) tr = Some (pos_of (v_st (e_v e))).
 Proof. exact long_history_fresh. Qed.
 
+(* persisted operation, whole histories: ANY application (resource), ANY configuration without entry
+   function, ANY list of inputs served by request_persisted (a new engine object per request, the log
+   and the store thread through pworld) from the empty world, no request ending in a panic or out of
+   fuel (then Finish is not reached and the ghost log, a model artefact, runs ahead of the store):
+   the stored position is reached from ([], 0) by a trace of table moves and engine resets
+   (pstep = PMove target | PReset) that explains the log: its moves are exactly the logged EvMove
+   targets, oldest first *)
+Theorem C04_history_position_persisted : forall inputs fuel rs c p' resps,
+  c_first c = None ->
+  pers_history fuel rs c (mkPw None [] [] false) inputs = (p', resps) -> no_fatal resps = true ->
+  (inputs <> [] -> exists st' ca', pw_store p' = Some (st', ca') /\ c_frames ca' <> []
+     /\ exists tr, trace_moves tr = log_moves (pw_log p') /\ pos_trace ([], 0) tr = Some (pos_of st'))
+  /\ (inputs = [] -> p' = mkPw None [] [] false).
+Proof. exact pers_history_fresh_lemma. Qed.
+
+(* one such request, from any stored record *)
+Theorem C04_request_trace_persisted : forall fuel rs c p input p' resp,
+  c_first c = None -> c_frames (snd (start_snap c p)) <> [] ->
+  request_persisted fuel rs c p input = (p', resp) -> resp_fatal resp = false ->
+  exists st' ca', pw_store p' = Some (st', ca') /\ c_frames ca' <> []
+    /\ exists new tr, pw_log p' = new ++ pw_log p /\ trace_moves tr = log_moves new
+         /\ pos_trace (pos_of (fst (start_snap c p))) tr = Some (pos_of st').
+Proof. exact request_persisted_trace. Qed.
+
 (* the entry function is outside the table: no move logged, page index reset to 0 *)
 Theorem C04_first_outside_table :
   exists c e, c_first c <> None /\
@@ -200,6 +224,16 @@ Example C04_request_persisted_nonvacuous :
   /\ check [[]; s2b "5"; s2b "0"; s2b "1"; s2b "0"] ([s2b "root"; s2b "foo"], 0).
 Proof. vm_compute. repeat split. Qed.
 
+(* the persisted history theorem is not vacuous: the corpus history, no fatal response, final record *)
+Example C04_history_persisted_nonvacuous :
+  let '(p, resps) := pers_history 200 (app_rsrc ex_eng_app) ex_cfg (mkPw None [] [] false)
+                                  [[]; s2b "5"; s2b "0"; s2b "1"; s2b "0"] in
+  c_first ex_cfg = None /\ no_fatal resps = true
+  /\ option_map (fun sn => pos_of (fst sn)) (pw_store p) = Some ([s2b "root"; s2b "foo"], 0)
+  /\ log_moves (pw_log p) = [s2b "root"; s2b "baz"; t_up; s2b "foo"; s2b "bar"; t_up]
+  /\ pos_trace ([], 0) (map PMove (log_moves (pw_log p))) = Some ([s2b "root"; s2b "foo"], 0).
+Proof. vm_compute. repeat split. Qed.
+
 Print Assumptions C04_position_follows_moves.
 Print Assumptions C04_position_follows_spec_partial.
 Print Assumptions C04_position_follows_spec_refuted_up_at_entry.
@@ -214,4 +248,6 @@ Print Assumptions C04_request_position.
 Print Assumptions C04_request_position_persisted.
 Print Assumptions C04_history_position.
 Print Assumptions C04_history_position_fresh.
+Print Assumptions C04_history_position_persisted.
+Print Assumptions C04_request_trace_persisted.
 Print Assumptions C04_first_outside_table.
